@@ -25,7 +25,7 @@ G == [p |-> cur.grp[1], q |-> cur.grp[2], g |-> cur.grp[3], h |-> cur.grp[4]]
 N == cur.n
 T == cur.t
 Parties == 0..(N - 1)
-\* role 5: honest key generation, then a damaged share when signing (not good); role 0: honest; 3: honest code whose first private message to one party was tampered with (a dealer handing out
+\* role 5: honest key generation, then a damaged share when signing; role 6: honest until the refresh, where its zero sharing has a non-zero constant term (both not good); role 0: honest; 3: honest code whose first private message to one party was tampered with (a dealer handing out
 \* one wrong share, then behaving); 1: the library's built-in faulty behaviour; 2: silent from the start
 Good0 == {i \in Parties : cur.role[i + 1] \in {0, 3}}
 LibFaulty == \E k \in 1..N : cur.role[k] = 1
